@@ -12,15 +12,50 @@ CLAIMED = ["C01", "C02", "C03", "C04", "C05", "C06", "C07", "C08", "C09", "C10",
            "C13", "C14", "C15", "C16", "C17", "C18", "C20"]
 
 
+def run_isolated(fn, _ctx, **params):
+    """Run a rules module's run(): statement by statement, so that a rule that loses its anchor (AnalysisError) is recorded as undecided
+    and the rules after it are still evaluated - an anchor lost by one rule must not hide what another rule reports.  A statement that
+    fails only because an earlier, failed statement did not define a name it uses is skipped."""
+    import ast
+    import inspect
+    import textwrap
+    tree = ast.parse(textwrap.dedent(inspect.getsource(fn)))
+    fdef = tree.body[0]
+    env = dict(fn.__globals__)
+    env.update(params)
+    fname = inspect.getsourcefile(fn) or "<rules>"
+    first = fn.__code__.co_firstlineno
+    failed = False
+    for st in fdef.body:
+        mod = ast.Module(body=[st], type_ignores=[])
+        ast.increment_lineno(mod, first - 1)
+        code = compile(mod, fname, "exec")
+        try:
+            exec(code, env)
+        except AnalysisError as e:
+            failed = True
+            what = ast.unparse(st).split("\n")[0][:60]
+            _ctx.undecideds.append(("-", fname.split("/")[-1], what, str(e)))
+            _ctx.obligations.append({"rule": "-", "where": fname.split("/")[-1], "what": "%s: %s" % (what, e), "verdict": "undecided",
+                                    "nontrivial": True})
+        except NameError:
+            if not failed:
+                raise
+
+
 def run_property(pid, tier, seed, replay=None):
     ctx = report.Ctx(pid, tier, seed)
     prog = None
     try:
         prog = Program()
         mod = importlib.import_module("isoqlint.rules.%s" % pid.lower())
-        mod.run(prog, ctx)
         from .rules import common
-        common.run(prog, ctx, pid)
+        if os.environ.get("ISOQLINT_NO_ISOLATION"):
+            mod.run(prog, ctx)
+            common.run(prog, ctx, pid)
+        else:
+            run_isolated(mod.run, ctx, prog=prog, ctx=ctx)
+            run_isolated(common.run, ctx, prog=prog, ctx=ctx, pid=pid)
         if tier == "thorough":
             thorough = getattr(mod, "run_thorough", None)
             if thorough is not None:
